@@ -273,6 +273,21 @@ CHECKS = {
         assumptions=["Java/Dart/Python output is evaluated by extraction, not executed (no runtimes offline)"],
         design_ref="DESIGN.md §2 C08",
     ),
+    "C02": dict(
+        title="Generated Go types encode and decode exactly what the IDL declares",
+        legs=[leg("TestBedC02", module="idl", quick=(4000, 4), thorough=(40000, 16), timeout_s=3000, prefixes=["c02.", "bed."], env={"VERIF_BED_PROGRAMS": "6"})],
+        level="exploration",
+        technique="property-based testing (rapid) of generated Go code: generated multi-file IDL programs are compiled by the working-tree compiler, built into a scratch module and exercised by a reflection driver; oracle = independent schema-less Thrift value trees computed from the IDL model (round trip through generated Read and Write)",
+        rule=("Per shard a batch of 6 generated programs (up to 3 files; typedef chains, includes, enums, nested containers to depth 3, required/default/optional, unions, exceptions, args/result structs of every service method) is compiled to Go and linked with the driver; "
+              "cases: (struct type, protocol in {binary, compact, JSON}, a conforming wire tree drawn from the model with optional fields present or absent, field order rotation, 0..3 unknown fields of random wire types, optionally one required field dropped). "
+              "Non-trivial: a type with a typedef'd, include-qualified or container-of-custom-type field and a non-empty value. Distinct: sha256 of (program text, type, tree, perturbation, protocol)."),
+        level_text=("Exploration: the generated Read must accept every conforming encoding in any field order with unknown fields skipped and reject one without a required field; the Go value it builds must represent the declaration (reflection: thrift tags, "
+                    "optional fields nil-able, kinds); the generated Write must then emit exactly the declared field ids, wire types and values (parsed back by a generic tree reader) with required/default fields present, optional ones iff set, one arm per union, nothing trailing; "
+                    "every declaration must have a generated counterpart."),
+        level_note="Trusted: Apache Thrift's protocol implementations (both ends of the tree comparison use them), reflection-based spec in h/genbed/driver/spec.go. Only the Go output is executed (no Java/Dart/Python runtimes offline).",
+        assumptions=["optional fields with IDL defaults (Thrift-Go 'set iff != default' convention), typedef-of-struct/enum uses, binary/container map keys and included typedef chains are excluded by hazard tags (known findings / documented conventions)"],
+        design_ref="DESIGN.md §2 C02",
+    ),
 }
 
 NOT_APPLICABLE = [
